@@ -238,13 +238,20 @@ pub fn gen(r: &mut Rng) -> Hist {
                 if r.chance(1, 2) {
                     ops.push(EOp::Flush)
                 } else {
-                    // drift: lose the canonical record of a document, search around it, let a drain repair it
+                    // drift: a freshly written (hence mirrored) document right at a query loses its canonical
+                    // record; the query is searched (and cached) without it; a drain repairs the record from the
+                    // mirror; the same query is searched again
                     let id = r.range(1, 8);
-                    ops.push(EOp::ColdLoss { id });
-                    ops.push(EOp::Search { scope: 0, q: r.pick(&queries).clone(), k: r.range(1, 3) as usize });
+                    let q = r.pick(&queries).clone();
+                    let k = r.range(1, 3) as usize;
                     if r.chance(2, 3) {
+                        ops.push(EOp::Insert { id, v: q.clone() });
+                    }
+                    ops.push(EOp::ColdLoss { id });
+                    ops.push(EOp::Search { scope: 0, q: q.clone(), k });
+                    if r.chance(3, 4) {
                         ops.push(EOp::Flush);
-                        ops.push(EOp::Search { scope: 0, q: r.pick(&queries).clone(), k: r.range(1, 3) as usize });
+                        ops.push(EOp::Search { scope: 0, q, k });
                     }
                 }
             }
